@@ -13,6 +13,8 @@ import (
 	"bytes"
 	"fmt"
 	"math/rand"
+	"os"
+	"path/filepath"
 	"sort"
 	"strconv"
 	"strings"
@@ -24,6 +26,32 @@ import (
 )
 
 func main() { lib.Main("C06", run) }
+
+// widenDetected: does splitPeriod of the tree this harness was built from widen the period range to the
+// first and the last listed segment (repair "period range covers listed segments")? Read from
+// livempd.go: the body of splitPeriod calls firstAndLastSegmentStart. The model is evaluated with
+// this flag; a repair of another shape shows up as a correspondence mismatch.
+var widenDetected bool
+
+func detectWiden() (bool, string) {
+	data, err := os.ReadFile(filepath.Join(app.VerifC16SourceDir(), "livempd.go"))
+	if err != nil {
+		return false, "source not readable: " + err.Error()
+	}
+	src := string(data)
+	i := strings.Index(src, "\nfunc splitPeriod(")
+	if i < 0 {
+		return false, "splitPeriod not found"
+	}
+	body := src[i+1:]
+	if j := strings.Index(body, "\nfunc "); j >= 0 {
+		body = body[:j]
+	}
+	if strings.Contains(body, "firstAndLastSegmentStart(") {
+		return true, "splitPeriod calls firstAndLastSegmentStart: period range widened to the listed segments"
+	}
+	return false, "splitPeriod takes the period range from the window start and now only"
+}
 
 const contScheme = "urn:mpeg:dash:period-continuity:2015"
 
@@ -562,7 +590,7 @@ func (lr *liveRun) live(id int, in c06in, a *lib.TLAsset, inQuantifier bool) (st
 	if snr < 0 {
 		snr = 0
 	}
-	term := fmt.Sprintf("CLive %d %s %d %s %s %d %d %d %d\n  [%s]\n  %d %s %s", id, lib.Zs(in.PPH), segMS, coqMode(in.Mode), lib.Cbool(in.Cont), in.StartS, snr, in.NowMS, tsbdMS,
+	term := fmt.Sprintf("CLive %d %s %s %d %s %s %d %d %d %d\n  [%s]\n  %d %s %s", id, lib.Cbool(widenDetected), lib.Zs(in.PPH), segMS, coqMode(in.Mode), lib.Cbool(in.Cont), in.StartS, snr, in.NowMS, tsbdMS,
 		strings.Join(ases, "; "), status, periods, pub)
 	return term, true
 }
@@ -636,6 +664,9 @@ func run(c *lib.Ctx) error {
 	for _, a := range assets {
 		byPath[a.Path] = a
 	}
+	var how string
+	widenDetected, how = detectWiden()
+	c.Res.Notes = append(c.Res.Notes, "source read: "+how)
 	rng := rand.New(rand.NewSource(c.Seed))
 	lr := &liveRun{c: c, ls: ls, stable: map[string]int64{}, distinct: map[string]bool{}, rng: rng}
 
@@ -881,7 +912,7 @@ func run(c *lib.Ctx) error {
 		if si.StartNr != nil {
 			snr = *si.StartNr
 		}
-		terms = append(terms, fmt.Sprintf("CSplit %d %s %d %s %s %s %s %s %s\n  [%s]\n  %d %s", id, pph, si.SegDurMS, coqMode(si.Mode), lib.Cbool(si.Cont),
+		terms = append(terms, fmt.Sprintf("CSplit %d %s %s %d %s %s %s %s %s %s\n  [%s]\n  %d %s", id, lib.Cbool(widenDetected), pph, si.SegDurMS, coqMode(si.Mode), lib.Cbool(si.Cont),
 			lib.Zs(int64(si.StartTimeS)*1000), lib.Zs(int64(snr)), lib.Zs(int64(si.StartTimeMS)), lib.Zs(int64(si.NowMS)),
 			strings.Join(ases, "; "), st, ps))
 		id++
@@ -1214,13 +1245,14 @@ func genSplit(rng *rand.Rand) splitIn {
 			as.HasTL = true
 			// a timeline as generateTimelineEntries writes it: t on the first element only, covering
 			// about [startTimeMS - one segment, nowMS]
+			// media times are relative to availabilityStartTime, as in LiveMPD
 			first := uint64(0)
-			if si.StartTimeMS > 0 {
-				first = uint64(si.StartTimeMS) * ts / 1000 / segTicks * segTicks
+			if rel := si.StartTimeMS - si.StartTimeS*1000; rel > 0 {
+				first = uint64(rel) * ts / 1000 / segTicks * segTicks
 			}
 			end := uint64(0)
-			if si.NowMS > 0 {
-				end = uint64(si.NowMS) * ts / 1000
+			if rel := si.NowMS - si.StartTimeS*1000; rel > 0 {
+				end = uint64(rel) * ts / 1000
 			}
 			t := first
 			nseg := 0
